@@ -151,6 +151,9 @@ func (c *Conversation) receiveFragment(beforeCtx fragmentationContext, data Vali
 	case fragmentIsNextMessage(beforeCtx, ix, l):
 		return beforeCtx.appendFragment(resultData, ix, l), nil
 	default:
+		// out of sequence: what was collected is forgotten, and the piece itself is discarded (it
+		// commits to nothing and binds nothing either)
+		unbind()
 		return forgetFragment(), nil
 	}
 }
